@@ -31,6 +31,7 @@ ASSUMPTIONS = [
     "for update with pandas input the new rows continue the index of the fitted rows",
 ]
 
+NARROW = ("uint8", "int8", "int32", "float32")
 REPS_P1 = (
     [("df", dt, ik, cl) for dt in ("float64", "int64") for ik in dets.INDEX_KINDS for cl in ("default", "str")]
     + [("series", dt, ik, nm) for dt in ("float64", "int64") for ik in dets.INDEX_KINDS for nm in ("default", "str")]
@@ -38,6 +39,8 @@ REPS_P1 = (
     + [("nd1", dt, "range", "default") for dt in ("float64", "int64")]
     + [("nd2F", "float64", "range", "default"), ("nd2S", "float64", "range", "default"), ("nd2S", "int64", "range", "default")]
     + [("df", "float64", ik, "default") for ik in dets.INDEX_KINDS_EXTRA] + [("series", "int64", ik, "str") for ik in dets.INDEX_KINDS_EXTRA]
+    # narrow and unsigned element types (the alphabet is exactly representable in all of them)
+    + [(c, dt, "range", "default") for c in ("nd2", "df") for dt in NARROW]
 )
 # scorers never look at the index: two index kinds suffice
 REPS_SCORER = [r for r in REPS_P1 if r[0].startswith("nd") or r[2] in ("range", "datetime")]
@@ -51,6 +54,7 @@ REPS_P2 = (
     [("df", dt, ik, cl) for dt in ("float64", "int64") for ik in dets.INDEX_KINDS for cl in ("default", "str")]
     + [("nd2", dt, "range", "default") for dt in ("float64", "int64")]
     + [("nd2F", "float64", "range", "default"), ("nd2F", "int64", "range", "default"), ("nd2S", "float64", "range", "default")]
+    + [(c, dt, "range", "default") for c in ("nd2", "df") for dt in NARROW]
 )
 
 
